@@ -175,11 +175,10 @@ DOMNode *DOMParentNode::insertBefore(DOMNode *newChild, DOMNode *refChild) {
     if (newChild->getOwnerDocument() != fOwnerDocument)
         throw DOMException(DOMException::WRONG_DOCUMENT_ERR, 0, GetDOMParentNodeMemoryManager);
 
-    // Prevent cycles in the tree
-    //only need to do this if the node has children
-    if(newChild->hasChildNodes()) {
+    // Prevent cycles in the tree: newChild must be neither this node nor one of its ancestors
+    {
         bool treeSafe=true;
-        for(DOMNode *a=getContainingNode()->getParentNode();
+        for(DOMNode *a=getContainingNode();
             treeSafe && a!=0;
             a=a->getParentNode())
             treeSafe=(newChild!=a);
